@@ -31,3 +31,7 @@ claim("C14", "DESIGN.md 3/C14",
       "every track of length<=2 over 36 positions around the box (length 3 over a 16-position sub-grid and over a 10-position globe menu; thorough: 3 over all 36) x 5 box spellings x range_max on both sides of and exactly on every hop distance, plus malformed boxes and unequal lengths, compared per point with the scalar reference",
       "trusts geographiclib as the distance oracle (explicit lat/lon per pair)",
       TECH_TREE)
+claim("C04", "DESIGN.md 3/C04",
+      "event graph over histories of flag vectors: every sequence of <=3 vectors (length<=2, entries over flags / non-flags / masked-with-adversarial-data) through qartod_compare, aggregate() and PandasStore.compute_aggregate()+save(), every split re-folded; each history compared with an order-free per-position reference, which decides commutativity, idempotence and associativity inside the bound",
+      "vectors of length<=2 (thorough 3), <=3 (thorough 4) vectors; trusts refmodel/qc.py aggregate()",
+      TECH_GRAPH)
